@@ -169,11 +169,20 @@ static int do_used(uint64_t seed, int n, const char *outname, const char *tmpdir
     {
       std::ofstream pf(fname);
       pf << "Given:\n  length: 2.5 kpc\n  time: 3. Myr\n  count: 7\n  flag: yes\n  sides: [1. pc, 2. pc, 3. pc]\n"
-         << "  density: 1.e-3 g cm^-3\n";
+         << "  density: 1.e-3 g cm^-3\n  bignum: 1e11\n  bigdigits: 123456789012\n  name: some_file.txt\n"
+         << "  label: run A7\n";
     }
     ParameterFile params(fname);
     std::vector< double > first;
+    std::vector< std::string > sfirst, ssecond;
     auto read_all = [&](ParameterFile &p, std::vector< double > &v, bool defaults_differ) {
+      std::vector< std::string > &sv = defaults_differ ? ssecond : sfirst;
+      // 64 bit integers (exponent notation and more than 10 digits), mandatory strings, strings with defaults
+      v.push_back((double)p.get_value< uint64_t >("Given:bignum"));
+      sv.push_back(std::to_string(p.get_value< int64_t >("Given:bigdigits")));
+      sv.push_back(p.get_value< std::string >("Given:name"));
+      sv.push_back(p.get_value< std::string >("Given:label"));
+      sv.push_back(p.get_value< std::string >(g + ":type", defaults_differ ? "other" : "Homogeneous"));
       // the second read uses different defaults: values must then come from the file
       const char *dl = defaults_differ ? "9. m" : "1.25 pc";
       const char *dv = defaults_differ ? "[9. m, 9. m, 9. m]" : "[1. pc, -2. pc, 0.5 kpc]";
@@ -219,14 +228,55 @@ static int do_used(uint64_t seed, int n, const char *outname, const char *tmpdir
         break;
       }
     }
-    fprintf(out, "{\"e\":\"used\",\"group\":\"%s\",\"n\":%zu,\"same\":%d,\"index\":%d,\"a\":%.9g,\"b\":%.9g}\n", g.c_str(),
-            first.size(), bad < 0 ? 1 : 0, bad, bad >= 0 ? first[bad] : 0., bad >= 0 ? second[bad] : 0.);
+    int sbad = -1;
+    for (size_t i = 0; i < sfirst.size(); ++i) {
+      if (sfirst[i] != ssecond[i]) {
+        sbad = (int)i;
+        break;
+      }
+    }
+    fprintf(out, "{\"e\":\"used\",\"group\":\"%s\",\"n\":%zu,\"same\":%d,\"index\":%d,\"a\":%.9g,\"b\":%.9g,"
+                 "\"ssame\":%d,\"sindex\":%d,\"sa\":\"%s\",\"sb\":\"%s\",\"bigdigits\":\"%s\",\"bignum\":\"%.0f\"}\n",
+            g.c_str(), first.size(), bad < 0 ? 1 : 0, bad, bad >= 0 ? first[bad] : 0., bad >= 0 ? second[bad] : 0.,
+            sbad < 0 ? 1 : 0, sbad, sbad >= 0 ? sfirst[sbad].c_str() : "", sbad >= 0 ? ssecond[sbad].c_str() : "",
+            sfirst[0].c_str(), first[0]);
+  }
+  fclose(out);
+  return 0;
+}
+
+// ---- unit relations ------------------------------------------------------------
+// input lines "unit a|unit b|mantissa|exponent": 1 a = mantissa x 10^exponent b.  Output: the relative deviation of
+// UnitConverter::convert(1, a, b) from that factor in units of 1e-12 (capped).
+static int do_units(const char *in, const char *outname) {
+  std::ifstream f(in);
+  FILE *out = fopen(outname, "w");
+  std::string line;
+  while (std::getline(f, line)) {
+    if (line.empty())
+      continue;
+    std::vector< std::string > part;
+    size_t pos = 0, nxt;
+    while ((nxt = line.find('|', pos)) != std::string::npos) {
+      part.push_back(line.substr(pos, nxt - pos));
+      pos = nxt + 1;
+    }
+    part.push_back(line.substr(pos));
+    const double factor = atof(part[2].c_str()) * std::pow(10., atof(part[3].c_str()));
+    const double r = UnitConverter::convert(1., part[0], part[1]);
+    double dev = std::abs(r / factor - 1.) * 1.e12;
+    if (!(dev < 1.e9))
+      dev = 1.e9;
+    fprintf(out, "{\"e\":\"unit\",\"a\":\"%s\",\"b\":\"%s\",\"dev\":%ld}\n", part[0].c_str(), part[1].c_str(),
+            (long)std::llround(dev));
   }
   fclose(out);
   return 0;
 }
 
 int main(int argc, char **argv) {
+  if (argc >= 4 && std::string(argv[1]) == "units")
+    return do_units(argv[2], argv[3]);
   if (argc >= 4 && std::string(argv[1]) == "trees")
     return do_trees(argv[2], argv[3]);
   if (argc >= 6 && std::string(argv[1]) == "used")
